@@ -132,6 +132,17 @@ pub fn gen_c04(o: &mut Out, tier: &str, sd: u64) {
             mprove(o, &mut r, "blinding.single", "R", w, &st.ctx(), &bls, &bits, &st.opens, &format!("dTxb={}", hs(&Scalar::ONE)));
             mprove(o, &mut r, "blinding.single", "R", w, &st.ctx(), &bls, &bits, &st.opens, &format!("dEb={}", hs(&Scalar::ONE)));
             mprove(o, &mut r, "tx.offset", "R", w, &st.ctx(), &bls, &bits, &st.opens, &format!("dTx={}", hs(&Scalar::ONE)));
+            // degenerate nonces: with s_L = s_R = 0 every relation still holds and zeroing one blinding makes
+            // exactly one of S, T_1, T_2 the identity; such proof points must be refused
+            mprove(o, &mut r, "identity.S", "R", w, &st.ctx(), &bls, &bits, &st.opens, "zsL=1,zsR=1,zSb=1");
+            mprove(o, &mut r, "identity.T1", "R", w, &st.ctx(), &bls, &bits, &st.opens, "zsL=1,zsR=1,zT1b=1");
+            mprove(o, &mut r, "identity.T2", "R", w, &st.ctx(), &bls, &bits, &st.opens, "zsL=1,zsR=1,zT2b=1");
+            mprove(o, &mut r, "identity.T2", "R", w, &st.ctx(), &bls, &bits, &st.opens, "zsR=1,zT2b=1");
+            mprove(o, &mut r, "identity.T2", "R", w, &st.ctx(), &bls, &bits, &st.opens, "zsL=1,zT2b=1");
+            // degenerate but admissible: zero vectors with non-zero blindings, zero blinding of A (no a-priori verdict)
+            mprove(o, &mut r, "degenerate-nonces", "-", w, &st.ctx(), &bls, &bits, &st.opens, "zsL=1,zsR=1");
+            mprove(o, &mut r, "degenerate-nonces", "-", w, &st.ctx(), &bls, &bits, &st.opens, "zAb=1");
+            mprove(o, &mut r, "degenerate-nonces", "-", w, &st.ctx(), &bls, &bits, &st.opens, "zSb=1,zT1b=1,zT2b=1");
             // tampered a / b (also with compensating offsets)
             mprove(o, &mut r, "ipp.ab", "R", w, &st.ctx(), &bls, &bits, &st.opens, &format!("dA={}", hs(&Scalar::ONE)));
             mprove(o, &mut r, "ipp.ab", "R", w, &st.ctx(), &bls, &bits, &st.opens, &format!("dB={}", hs(&Scalar::ONE)));
